@@ -7,7 +7,7 @@
 (* computed here from the definitions (Kemeny.tla, Positional.tla,         *)
 (* LocalSearch.tla), never by the harness.                                 *)
 (***************************************************************************)
-EXTENDS Kemeny, Scheme, Positional, LocalSearchDefs, Partition, Json, IOUtils
+EXTENDS Kemeny, Scheme, Positional, LocalSearchDefs, Partition, PickScanDefs, Json, IOUtils
 
 VARIABLES i, verdict
 
@@ -137,6 +137,8 @@ Verdict(rec) ==
         \* ------------------------------------------------------------ C10
         Cands == {Unify(D[r], U) : r \in DOMAIN D}
         MinC  == Min({Sc(c) : c \in Cands})
+        ScanIdx == ScanResult([r \in DOMAIN D |-> Sc(Unify(D[r], U))], rec.flag = 1)
+        ScanSeq == [j \in DOMAIN ScanIdx |-> Unify(D[ScanIdx[j]], U)]
         V10 == IF rec.cfg # "PickAPerm" THEN <<"skip", "not-pickaperm">>
                ELSE IF ~Complete /\ ~IsUnifying(B, T, 2)
                     THEN (IF rec.out \in {"refused:InompleteRankingsIncompatibleWithScoringSchemeException",
@@ -148,6 +150,9 @@ Verdict(rec) ==
                ELSE IF \E k \in DOMAIN K : Sc(K[k]) # MinC THEN <<"viol", "C10:minimal">>
                ELSE IF rec.flag = 0 /\ ~({c \in Cands : Sc(c) = MinC} \subseteq Range(K))
                     THEN <<"viol", "C10:all-minimal">>
+               \* beyond the property: the list is the one the scan machine (PickScan.tla) builds, in input order with
+               \* the duplicates of a ranking kept - a difference is drift, not a violation
+               ELSE IF ~Big /\ K # ScanSeq THEN <<"drift", "pickaperm-scan-order-or-multiplicity">>
                ELSE <<"ok", "best-inputs">>
         \* ------------------------------------------------------------ C12
         Fam   == BordaFamily(B, T)
